@@ -25,7 +25,7 @@ NOT_END = ["Mr.", "A.", "U.S.", "e.g.", "ok:", "THE.", "x."]
 WORDS = ("the quick brown fox jumps over a lazy dog while many other small words fill out this sentence "
          "nicely and keep going on for some time alpha beta gamma delta epsilon 2024 3.14 e.g. U.S. item "
          "value=3 x-y a/b naïve café Ünïcode state-of-the-art foo_bar 100% $5 @you semi; colon: (paren) "
-         "verylongwordthatgoesonandon x").split()
+         "verylongwordthatgoesonandon x").split(" ") + ["20\u202fkm", "a\u00a0b"]  # narrow / no-break spaces inside a word (at word edges: own sub-workload in C02)
 CJK = ["中文", "日本語", "汉字abc", "abc汉字"]
 TYPO = ['"quoted"', "'single'", "it's", "don't", "James'", "wait...", "...so", "and...then", '"two', 'words"',
         "x=\"v\"", "'tis", "rock'n'roll", '("paren")', "end...\"", "—\"dash\"", "hmm....", "a . . . b", "..",
@@ -35,7 +35,9 @@ TYPO = ['"quoted"', "'single'", "it's", "don't", "James'", "wait...", "...so", "
         '"promising".', "'fine'!", '"why"?', "(\"ok\")."]
 CODE_CORE = ["`x`", "`a b`", "`foo(bar, baz)`", "`--flag value`", "`*not em*`", "`<tag attr>`", "`it's \"q\"...`",
              "`a|b`", "`{% t %}`", "`[l](u)`", "`` a`b ``", "`` `x` ``", "``` a``b ```", "`` `a - b ``", "`` 1. `x` # y ``",
-             "`a  b`", "`- x`"]
+             "`a  b`", "`- x`",
+             # CJK next to ASCII letters/digits inside a span: the CJK/Latin spacing is for prose only
+             "`pip安装flowmark`", "`v2中文`"]
 CODE_HOSTILE = ["`end. Next`", "` x `"]
 LINK_CORE = ["[link](http://ex.com/a)", "[two words](http://ex.com/a_b?q=1&r=2)", "[a b c](http://u.v/w \"T t\")",
              "![alt text](img.png)", "![a](i.png \"ti tle\")", "<https://example.org/path>", "[*em* link](http://x.y/z)",
@@ -43,13 +45,18 @@ LINK_CORE = ["[link](http://ex.com/a)", "[two words](http://ex.com/a_b?q=1&r=2)"
              "<mailto:a@b.co>", "https://en.wikipedia.org/wiki/O'Reilly_Media", "<https://x.y/it's>",
              "[same dest](http://ref.example/x)", "[same dest](http://ref.example/x \"Different\")", "[same dest](/rel/path_a \"Title here\")",
              # autolinks whose resolved target differs from what is written (scheme added by the reader)
-             "www.example.com/chef's-menu", "<a.b@c.example>", "www.bare.example.org"]
+             "www.example.com/chef's-menu", "<a.b@c.example>", "www.bare.example.org",
+             "[文档](https://example.com/wiki/中文doc)", "https://example.com/文档v2", "![图alt](img中文2.png)"]
 LINK_HOSTILE = ["[sp](<http://x.y/a b>)", "[t](http://x.y 'single')", "[p](http://x.y (paren))", "[dots. End](http://x.y)",
                 "[nested [br]](http://x.y)", "[e](http://x.y/(a))", "www.bare.example.org"]
-HTML_INL = ["<span class=\"a b\">", "</span>", "<br/>", "<b>", "</b>", "<a href=\"http://x.y/z\" title=\"t's\">", "</a>"]
+HTML_INL = ["<span class=\"a b\">", "</span>", "<br/>", "<b>", "</b>", "<a href=\"http://x.y/z\" title=\"t's\">", "</a>",
+            # white space around '=' is allowed in a tag; the value holds words that look like block markers
+            "<span title = \"alpha - beta 1. gamma\">", "<a href= \"x\" title =\"# one > two\">"]
 TAG_INL = ["{% tag %}", "{% tag a=1 b=\"two words\" %}", "{{ var }}", "{{ a.b | f(\"x y\") }}", "{# note's #}",
            "<!-- c \"q\" -->", "{% f %}{% /f %}", "{% if x %}", "{% endif %}", "{% t x=\"a...b\" %}", "{{ a...b }}",
-           "<!-- wait... \"q\" it's -->", "{# it's... so #}"]
+           "<!-- wait... \"q\" it's -->", "{# it's... so #}",
+           # a tag body may contain the first character of its own closing delimiter
+           "{% if n % 10 == 0 and s == \"Loading...please wait\" %}", "{# issue #12: later...maybe it's #}", "{{ {\"a\": \"wait...what\"}|tojson }}"]
 ESCAPES = ["\\*", "\\_", "\\#", "\\[x\\]", "\\>", "a\\|b", "&amp;", "&lt;", "&#35;", "&copy;", "3\\)", "\\-", "\\+"]
 # an escaped ordered-list marker: not in documents with tag lines (listed finding *-escaped-number-in-tag-paragraph: the
 # escape is dropped and the tag handler then takes the line for a list item; exercised by its own sub-workload in C01/C02)
@@ -259,7 +266,7 @@ class Gen:
                 self.feats.add("setext")
             ws = self.words(r.randint(1, 6), atoms=0.08, allow_first_atom=False)
             kind = r.random()
-            if kind < 0.30 and (any(w[:1] in "*_" or w[-1:] in "*_" for w in ws) or "://" in ws[-1] or "://" in ws[0]):
+            if kind < 0.30 and (any(w[:1] in "*_" or w[-1:] in "*_" for w in ws) or "://" in ws[-1] or "://" in ws[0] or ws[-1].startswith("www.") or ws[0].startswith("www.")):
                 kind = 1.0  # no emphasis nested directly inside the all-bold wrapper
             if kind < 0.15:
                 ws = ["**" + ws[0]] + ws[1:]
